@@ -43,6 +43,7 @@ func checkC18(c *core.Ctx) error {
 	c18FloatWidth(c)
 	c18IntParse(c)
 	c18AccessorsReadInputs(c)
+	c18FactoriesFresh(c)
 	c18LikeNamed(c)
 	c18NamedKeys(c)
 	c18DecoderComplete(c)
@@ -2373,6 +2374,7 @@ func c18EncodersPure(c *core.Ctx) {
 func c18NoSelfMarshal(c *core.Ctx) {
 	c.Rule("C18.R11", "MarshalJSON does not pass a value of its own receiver type to json.Marshal (unbounded recursion)", 12)
 	c.Rule("C18.R12", "every accessor of a decoded configuration (methods of ConfigDistribution) reads all of its parameters (name, type, shape)", 20)
+	c.Rule("C18.R13", "registry factories (NewScalarPdf, NewVectorPdf, NewMatrixPdf, ...) return a fresh object: the registered prototype reaches the result only through its type", 3)
 	for _, p := range c.LibPkgs() {
 		info := p.TypesInfo
 		pkg := p
@@ -2568,4 +2570,91 @@ func c18AccessorsReadInputs(c *core.Ctx) {
 	}
 	paramsAreRead(c, "C18.R12", p, func(fd *ast.FuncDecl) bool { return core.RecvTypeName(fd) == "ConfigDistribution" },
 		"the importer that calls this accessor gets something that does not depend on the entry it asked for, so the exported configuration is not read back")
+}
+
+// c18FactoriesFresh (R13): the factories that turn a registered name into an object for ImportConfig return a NEW object of
+// the registered type. Every importer ends with `*obj = *tmp`, so a factory that hands out the registry's prototype makes
+// all decoded distributions of one family the same object: the second import overwrites the first.
+// Decided on the value flow of the return: the entry read from the registry may reach the result only through
+// reflect.TypeOf (its type), and the result is produced by reflect.New or a constructor call.
+func c18FactoriesFresh(c *core.Ctx) {
+	p := c.Pkg("statistics")
+	if p == nil {
+		c.Unknown("C18.R13", "statistics", "package loaded", token.NoPos, "not loaded")
+		return
+	}
+	info := p.TypesInfo
+	core.EachFunc(p, func(_ *ast.File, fd *ast.FuncDecl) {
+		if fd.Recv != nil || !strings.HasPrefix(fd.Name.Name, "New") {
+			return
+		}
+		// x, ok := SomeRegistry[name]
+		var proto types.Object
+		ast.Inspect(fd.Body, func(n ast.Node) bool {
+			as, ok := n.(*ast.AssignStmt)
+			if !ok || len(as.Lhs) != 2 || len(as.Rhs) != 1 {
+				return true
+			}
+			ix, ok := ast.Unparen(as.Rhs[0]).(*ast.IndexExpr)
+			if !ok {
+				return true
+			}
+			if id, ok := ast.Unparen(ix.X).(*ast.Ident); ok && strings.HasSuffix(id.Name, "Registry") {
+				if l, ok := as.Lhs[0].(*ast.Ident); ok {
+					proto = info.Defs[l]
+				}
+			}
+			return true
+		})
+		if proto == nil {
+			return
+		}
+		cons := c.FuncName(p, fd)
+		bad := token.NoPos
+		fresh := false
+		ast.Inspect(fd.Body, func(n ast.Node) bool {
+			rs, ok := n.(*ast.ReturnStmt)
+			if !ok || len(rs.Results) != 1 {
+				return true
+			}
+			if types.ExprString(rs.Results[0]) == "nil" {
+				return true
+			}
+			// every use of the prototype inside the returned expression is the argument of reflect.TypeOf
+			var stack []ast.Node
+			ast.Inspect(rs.Results[0], func(m ast.Node) bool {
+				if m == nil {
+					stack = stack[:len(stack)-1]
+					return true
+				}
+				stack = append(stack, m)
+				if ce, ok := m.(*ast.CallExpr); ok {
+					if fn := core.Callee(info, ce); fn != nil && fn.Pkg() != nil && fn.Pkg().Path() == "reflect" && fn.Name() == "New" {
+						fresh = true
+					}
+				}
+				if id, ok := m.(*ast.Ident); ok && info.Uses[id] == proto {
+					okUse := false
+					if len(stack) >= 2 {
+						if ce, ok := stack[len(stack)-2].(*ast.CallExpr); ok {
+							if fn := core.Callee(info, ce); fn != nil && fn.Pkg() != nil && fn.Pkg().Path() == "reflect" && fn.Name() == "TypeOf" {
+								okUse = true
+							}
+						}
+					}
+					if !okUse && bad == token.NoPos {
+						bad = id.Pos()
+					}
+				}
+				return true
+			})
+			return true
+		})
+		c.Check(bad == token.NoPos && fresh, "C18.R13", cons, "result is a new object of the registered type", func() token.Pos {
+			if bad != token.NoPos {
+				return bad
+			}
+			return fd.Pos()
+		}(), "the factory returns (something derived from) the registered prototype itself instead of reflect.New of its type: every distribution of this family decoded in one process is the same object, and importing a second one overwrites the first")
+	})
 }
